@@ -168,6 +168,7 @@ type Frame struct {
 	out      func(Outcome)
 	joins    []*joinPoint
 	heapNames map[string]*Loc
+	heapAllocs map[*ssa.Alloc]*Loc
 	allocs   map[*ssa.Alloc]*Cell
 }
 
